@@ -2,7 +2,7 @@ import ScrapliModel.TimeoutRestore
 open Scrapli.TimeoutRestore
 
 /-
-  line: `<stack s|a> <shape t|mcb bits> <ops> <tr> <sess|x> <op;op;...> <ev,ev,...|.>`
+  line: `<stack s|a> <shape t|mcbw|mcbwga bits> <ops> <tr> <sess|x> <op;op;...> <ev,ev,...|.>`
   reply: `<res,...> <ops/tr/sess,...> <site/region/ops/tr/sess,...|.>`   (thousandths of a second)
     op   sc:<net>:<ov> | scs:<net>:<file>:<ov>:<n>:<stop> | sar:<ov>:<rd> | si:<net>:<ov>
          | cfg:<ov>:<n>:<stop>:<acq> | rcb:<init>:<rt>:<complete>/<next>+...|.
@@ -59,7 +59,9 @@ def pOp (s : String) : Option (Op Int) :=
 def pShape (stack : Bool) (s : String) : Option Shape :=
   if s == "t" then some (if stack then Shape.async else Shape.sync)
   else match s.toList with
-    | [m, c, b] => do pure ⟨← pBool m.toString, ← pBool c.toString, ← pBool b.toString⟩
+    | [m, c, b, w] => do pure ⟨← pBool m.toString, ← pBool c.toString, ← pBool b.toString, ← pBool w.toString, false, false⟩
+    | [m, c, b, w, g, a] => do
+      pure ⟨← pBool m.toString, ← pBool c.toString, ← pBool b.toString, ← pBool w.toString, ← pBool g.toString, ← pBool a.toString⟩
     | _ => none
 
 def sExc : Option Exc → String
@@ -73,10 +75,10 @@ def sExc : Option Exc → String
 def sSite : Site → String
   | .pre => "pre" | .sendInput => "send_input" | .write => "write" | .readUntilInput => "read_until_input"
   | .sendReturn => "send_return" | .read => "read" | .interact => "interact" | .acquire => "acquire"
-  | .abort => "abort" | .check => "check" | .run => "run"
+  | .abort => "abort" | .check => "check" | .run => "run" | .push => "push" | .gap => "gap"
 
 def sRegion : Region → String
-  | .none => "n" | .chan => "chan" | .cb => "cb"
+  | .none => "n" | .chan => "chan" | .cb => "cb" | .swap => "swap" | .gap => "gap"
 
 def sSt (s : St Int) : String :=
   s!"{s.ops}/{s.tr}/" ++ (match s.sess with | none => "x" | some v => s!"{v}")
